@@ -307,6 +307,27 @@ def run(F, R, tier):
         from_answer = rhs is not None and rhs.get("k") == "Field" and rhs["field"] == "results" and any(any(y is q or is_within(q, y) for q in rq) for y in through_locals(rhs["e"]))
         R.ob("C03-c", "the i-th answer is attributed to the i-th requirement", same_list and from_answer,
              "requests and answers are not paired position by position (`%s`): a failed requirement's error would be filed under another package's specifiers, which then look loaded" % expr_text(z)[:80], where(z))
+    # the caller of the cached-manifest probe unwraps the memo entry of the package: the probe
+    # leaves an entry on every path
+    pc = F.body("graph::Builder::probe_cached_jsr_version_manifests")
+    memo_p = [p_ for p_ in pc["body"]["params"] if tyc(F, p_, "CachedJsrVersionProbe")]
+    users = [n for n in F.all_nodes() if n.get("k") == "MethodCall" and n["name"] in ("unwrap", "expect") and tyc(F, n["recv"], "CachedJsrVersionProbe") and peel(n["recv"]).get("k") == "MethodCall" and peel(n["recv"])["name"] == "get"]
+    if users:
+        is_entry = lambda n: n.get("k") == "MethodCall" and n["name"] in ("entry", "insert") and tyc(F, n["recv"], "HashMap<") and tyc(F, n["recv"], "CachedJsrVersionProbe")
+        bad, _ = must_pass(F, pc["body"]["value"], is_entry, exit_kinds=("fallthrough", "return"))
+        R.ob("C03-f", "the probe memo has an entry for the package after every probe (callers unwrap it)", bool(memo_p) and not bad,
+             "a path through probe_cached_jsr_version_manifests returns without creating the memo entry, while `%s` in %s unwraps it: a requirement without probe candidates panics the build" % (expr_text(users[0])[:50], users[0]["_top"]["path"].split("::")[-1]), where(bad[0][1]) if bad else pc["file"])
+    # the task future handed back by the executor is driven by whoever awaits the join handle
+    jh = F.adt("rt::JoinHandle")
+    futf = [f_["name"] for f_ in jh["variants"][0]["fields"] if "Future" in F.types[f_["ty"]] and "Receiver" not in F.types[f_["ty"]]]
+    pl = [b for b in F.bodies if b["path"].endswith("::poll") and "rt::JoinHandle" in b["path"]]
+    ok = False
+    if futf and pl:
+        polls = [n for n in pl[0]["_nodes"] if n.get("k") in ("MethodCall", "Call") and (n.get("name") == "poll" or (n.get("fn") or "").endswith("Future::poll")) and any(x.get("k") == "Field" and x["field"] in futf for x in walk(n))]
+        rxp = [n for n in pl[0]["_nodes"] if n.get("k") in ("MethodCall", "Call") and (n.get("name") == "poll" or (n.get("fn") or "").endswith("Future::poll")) and any(x.get("k") == "Field" and x["field"] == "rx" for x in walk(n))]
+        ok = len(polls) >= 1 and all(any(may_reach(F, p_, r_) for p_ in polls) for r_ in rxp)
+    R.ob("C03-e", "awaiting a spawned task drives the task future returned by the executor", ok,
+         "JoinHandle::poll does not poll the future returned by Executor::execute: with an executor that hands the task back instead of running it (the wasm default does), registry metadata loads never complete and the build never terminates", pl[0]["file"] if pl else "src/rt.rs")
     # every entry written while draining deferred content loads belongs to the completed item
     hc = F.body("graph::Builder::handle_jsr_registry_pending_content_loads")
     lp = [n for n in hc["_nodes"] if n["k"] == "While"]
